@@ -76,6 +76,7 @@ type pathState struct {
 	stubsSeen    map[string]bool
 	notes        []string
 	trace        []string
+	allocLimit   int64
 }
 
 func newPathState(cfg *ExploreConfig, solver *Solver, item *WorkItem) *pathState {
@@ -265,6 +266,21 @@ func (ps *pathState) assume(c *Term) {
 		}
 	}
 	ps.addPC(c)
+}
+
+// tryAssume adds c if it is satisfiable together with the path condition.
+func (ps *pathState) tryAssume(c *Term) {
+	if c.op == OpConst || ps.cfg.ConcreteOnly {
+		return
+	}
+	if ps.ev.evalBool(c) {
+		ps.addPC(c)
+		return
+	}
+	if res, m := ps.query(c); res == Sat {
+		ps.setModel(m)
+		ps.addPC(c)
+	}
 }
 
 // axiom adds a background fact (e.g. hash injectivity); same as assume but
